@@ -77,8 +77,8 @@ UNIT = {
         job('ag_allocateFromArray', 'array_plus_grid__allocateFromArray', ST + ['array_plus_grid__resize']),
         job('ag_resize', 'array_plus_grid__resize', ST),
         job('ag_recycleChunk', 'array_plus_grid__recycleChunk', ST + TR),
-        job('ag_stopTrackingHole', 'array_plus_grid__stopTrackingHole_real', ST),
-        job('ag_startTrackingHole', 'array_plus_grid__startTrackingHole_real', ST + ['array_plus_grid__moveCurrentToRow']),
+        job('ag_stopTrackingHole', 'array_plus_grid__stopTrackingHole_real', ST, tier='thorough', timeout=7200),     # ~400 s: thorough tier only
+        job('ag_startTrackingHole', 'array_plus_grid__startTrackingHole_real', ST + ['array_plus_grid__moveCurrentToRow'], tier='thorough', timeout=7200),   # ~400 s
         # ag_requestChunk: contract drafted in spec.h; the grid / medium-list paths need shape facts about Next(grid_current) and the
         # leftover split that are not discharged yet - not claimed
     ],
